@@ -19,6 +19,7 @@ import (
 func outcomeJ(o Outcome) J {
 	j := o.toJSON()
 	delete(j, "e")
+	j["msg"] = o.Msg // compared between runs of the same code only (its wording is nobody's business, its stability is)
 	return j
 }
 
